@@ -16,7 +16,7 @@ use foyer_common::{code::Code, metrics::Metrics, spawn::Spawner};
 use foyer_storage::{
     Compression, DeviceBuilder, FsDeviceBuilder, IoEngine, IoEngineConfig, PsyncIoEngineConfig,
     verif::{
-        BlobIndexReader, Buffer, BufferEntryInfo, Checksummer, EntryDeserializer, EntryHeader, IoEngineBuildContext,
+        BlobEntryIndex, BlobIndex, BlobIndexReader, Buffer, BufferEntryInfo, Checksummer, EntryDeserializer, EntryHeader, IoEngineBuildContext,
         IoSliceMut, Partition, SplitCtx, Splitter, Tombstone, TombstoneLog, PAGE,
     },
 };
@@ -521,6 +521,48 @@ fn main() {
                         }
                     }
                     format!("blocks={} parts={}", batch.blocks.len(), parts.join(";"))
+                }
+                "bidx" => {
+                    // the blob index page byte by byte: BlobIndex::write / seal over a reused page buffer (`fill`),
+                    // BlobIndexReader::read on the sealed page and on a copy with one byte changed (`flip=pos:xor`)
+                    let size: usize = kv["I"].parse().unwrap();
+                    let fill: u8 = kv.get("fill").map(|s| s.parse().unwrap()).unwrap_or(0);
+                    let ents: Vec<BlobEntryIndex> = kv
+                        .get("ents")
+                        .map(|s| s.as_str())
+                        .unwrap_or("")
+                        .split('/')
+                        .filter(|s| !s.is_empty())
+                        .map(|e| {
+                            let f: Vec<u64> = e.split('.').map(|x| x.parse().unwrap()).collect();
+                            BlobEntryIndex { hash: f[0], sequence: f[1], offset: f[2] as u32, len: f[3] as u32 }
+                        })
+                        .collect();
+                    let mut bytes = IoSliceMut::new(size);
+                    bytes.iter_mut().for_each(|b| *b = fill);
+                    let mut bi = BlobIndex::new(bytes);
+                    for e in ents.iter() {
+                        bi.write(e);
+                    }
+                    let page = bi.seal();
+                    let show = |r: Option<Vec<BlobEntryIndex>>| match r {
+                        Some(v) => format!(
+                            "ok:{}",
+                            v.iter().map(|i| format!("{}.{}.{}.{}", i.hash, i.sequence, i.offset, i.len)).collect::<Vec<_>>().join("/")
+                        ),
+                        None => "reject".to_string(),
+                    };
+                    let read = show(BlobIndexReader::read(&page));
+                    let mut dmg = page.to_vec();
+                    let (pos, x) = kv["flip"].split_once(':').unwrap();
+                    let (pos, x): (usize, u8) = (pos.parse().unwrap(), x.parse().unwrap());
+                    dmg[pos] ^= x;
+                    let ck2 = Checksummer::checksum64(&dmg[8..]);
+                    let d = match std::panic::catch_unwind(|| BlobIndexReader::read(&dmg)) {
+                        Ok(r) => show(r),
+                        Err(_) => "panic".to_string(),
+                    };
+                    format!("ck={} ck2={} page={} read={} dmg={}", Checksummer::checksum64(&page[8..]), ck2, hex(&page[..]), read, d)
                 }
                 _ => panic!("unknown command {name}"),
             }
